@@ -1,4 +1,4 @@
-\* C04: shapes no-auth / A (CLAIMTOBE) / B (TOKEN) / resumed, encryption REQUIRED / PREFERRED / OPTIONAL (client) x REQUIRED / OPTIONAL (server): every handshake that ENDS with encryption on,
+\* C04: shapes no-auth / A (CLAIMTOBE) / B (TOKEN) / resumed / resumed without reply / pre-keyed streams with 0|1 cleartext frames each way, encryption REQUIRED / PREFERRED / OPTIONAL (client) x REQUIRED / OPTIONAL (server): every handshake that ENDS with encryption on,
 \* one relay action anywhere on any cleartext frame, every interleaving, endpoints may abort once tampered.
 SPECIFICATION Spec
 CONSTANTS
@@ -11,7 +11,7 @@ CONSTANTS
   CCiphers <- OnlyAES
   SCiphers <- OnlyAES
   CmdModes = {TRUE}
-  Shapes = {"full", "resume"}
+  Shapes = {"full", "resume", "resume1", "pre00", "pre10", "pre01", "pre11"}
   SameLists = TRUE
   RelayBudget = 1
   AllowAbort = FALSE
